@@ -34,7 +34,7 @@ TIERS = {
 STEP_CAP = 500000
 SHRINK_BUDGET = 250
 FAULT_OPS = ("restart", "redeliver", "alloc", "gc", "prune", "side_job", "reorder_library")
-PROBES = ["entries_carry_unrelated_columns", "redelivery_hit_template", "restart_between_batches", "near_miss_same_pregroup",
+PROBES = ["service_configured_explicitly", "entries_carry_unrelated_columns", "redelivery_hit_template", "restart_between_batches", "near_miss_same_pregroup",
           "class_of_size_ge3_split_across_batches", "single_batch_no_template_path", "relabelled_duplicate",
           "one_shot_compared", "lib_check_new_class", "lib_check_existing_class", "library_ids_not_contiguous",
           "library_not_in_ascending_class_order", "empty_centre_item", "caller_postprocessed_returned_entries",
@@ -113,7 +113,7 @@ def generate(seed: int, tier: str = "quick") -> Dict[str, Any]:
         pool = (syn * 3 + pool[:2]) if rng.random() < 0.5 else (pool + syn * 2)
     near_p = rng.choice([0.0, 0.15, 0.3])
     cfg = {"attr": rng.random() < 0.6, "attr_kind": rng.choice(["str", "str", "deg_desc", "size_pair"]),
-           "extra_fields": rng.random() < 0.3}
+           "extra_fields": rng.random() < 0.3, "explicit_ctor": rng.random() < 0.25}
     faulty = rng.random() < 0.75
     ops: List[Dict[str, Any]] = []
     k = 0
@@ -173,7 +173,14 @@ def execute(case: Dict[str, Any], sim: Sim) -> None:
 
 def _run(case: Dict[str, Any], sim: Sim, world: World) -> None:
     akey = "inv" if case["cfg"].get("attr") else None
-    bcs: List[BatchCluster] = [BatchCluster(), BatchCluster()]   # two long-lived service objects share one durable library
+    if case["cfg"].get("explicit_ctor"):
+        # the documented defaults spelled out, the same caller-owned lists handed to both service objects
+        names_, dflt_ = ["element", "charge"], ["*", 0]
+        bcs: List[BatchCluster] = [BatchCluster(names_, dflt_, "order"),
+                                   BatchCluster(node_label_names=names_, node_label_default=dflt_, edge_attribute="order", backend="nx")]
+        sim.probe("service_configured_explicitly")
+    else:
+        bcs = [BatchCluster(), BatchCluster()]   # two long-lived service objects share one durable library
     used_inst: set = set()
     held: Dict[str, nx.Graph] = {}   # content key -> a delivered, un-relabelled, un-edited graph object (caller keeps a few)
     templates: List[Dict[str, Any]] = []
